@@ -6,6 +6,7 @@
                                                    leading minor of the generated matrix (0: positive definite) = LAPACK's info
     x geqrf <reg> <taureg> <dataseed>              geqrf(aa, tau)
     x gesvd <regA> <regU> <regS> <regV> <dataseed> gesvd(AA, UU, ss, VV)
+    x syev <reg> <wreg> <workreg> <U|L> <dataseed> <api>   the five syev overloads
 
   Answers: the Fortran call(s) the adaptor makes (MultiModel/Lapack.lean), the order and the leading block the property
   prescribes for potrf's result, and `ok` for every numerical / frame check the harness performs (what the theorems of
@@ -46,6 +47,24 @@ def gesvdLines (AA UU ss VV : View) : List String :=
   (if gesvdAsserts AA UU ss VV then [] else ["ASSERT gesvd"]) ++
   [ s!"{call} query", s!"{call} compute", "outcome ok", "num ok | order ok | frame ok" ]
 
+/-- `x syev`: api 0 `syev(uplo,a,w,work)`, 1 `syev(uplo,a,w)`, 2 `w = syev(uplo,a)`, 3 `vecs = syev(uplo, const a, w)`,
+    4 `{vecs, vals} = syev(uplo, const a)`; storage the overload allocates itself is printed as `ext` -/
+def syevLines (a w work : View) (upper : Bool) (api : Nat) : List String :=
+  let uplo : Filling := if upper then .upper else .lower
+  let aEff := if api ≥ 3 then decayView a 0 else a
+  let wEff := if api == 2 || api == 4 then syevAutoW a 0 else w
+  let workEff := if api == 0 then work else syevAutoWork aEff 0
+  let p (fresh : Bool) (x : Int) : String := if fresh then "ext" else toString x
+  let callLine := match syevCall uplo aEff wEff workEff with
+    | some c => [s!"syev {c.jobz} {c.uplo} {c.n} {p (api ≥ 3) c.a} {c.lda} {p (api == 2 || api == 4) c.w} {p (api != 0) c.work} {c.lwork}"]
+    | none => ["ASSERT syev layout"]
+  let ret := if api ≤ 1 then
+      let r := syevResult a 0
+      let idxs := boxIndices r.exts
+      s!"ret {fmtExts r.exts} | {idxs.length} : {ints (idxs.map r.addr)}"
+    else "ret none"
+  (if syevAsserts aEff wEff workEff then [] else ["ASSERT syev"]) ++ callLine ++ [ret, "num ok | order ok | frame ok"]
+
 def step (st : Driver.St) (line : String) : Driver.St × List String :=
   let ws := (line.trimAscii.toString.splitOn " ").filter (· ≠ "")
   match ws with
@@ -57,6 +76,10 @@ def step (st : Driver.St) (line : String) : Driver.St × List String :=
     match reg.toNat?, treg.toNat? with
     | some r, some t => (st, geqrfLines st.views[r]! st.views[t]!)
     | _, _ => (st, ["bad-op"])
+  | ["x", "syev", ra, rw, rk, ul, _dseed, api] =>
+    match ra.toNat?, rw.toNat?, rk.toNat?, api.toNat? with
+    | some a, some w, some k, some p => (st, syevLines st.views[a]! st.views[w]! st.views[k]! (ul == "U") p)
+    | _, _, _, _ => (st, ["bad-op"])
   | ["x", "gesvd", ra, ru, rs, rv, _dseed] =>
     match ra.toNat?, ru.toNat?, rs.toNat?, rv.toNat? with
     | some a, some u, some s, some v => (st, gesvdLines st.views[a]! st.views[u]! st.views[s]! st.views[v]!)
